@@ -1070,7 +1070,8 @@ void svt_cdef_frame_mt(EbDecHandle *dec_handle_ptr, DecThreadCtxt *thread_ctxt) 
     svt_release_mutex(dec_mt_frame_data->temp_mutex);
     if (do_upscale) {
         volatile uint32_t *num_threads_cdefed = &dec_mt_frame_data->num_threads_cdefed;
-        while (*num_threads_cdefed != dec_handle_ptr->dec_config.threads)
+        while (*num_threads_cdefed != dec_handle_ptr->dec_config.threads &&
+               EB_FALSE == dec_mt_frame_data->end_flag)
 #ifdef SVT_AV1_VERIF
             SVT_VERIF_SPIN();
 #else
